@@ -52,7 +52,8 @@ RULE = (
     "7 family files built by the library (groups 3 levels deep; points/curve/surface with data and property groups; "
     "grid2d/blockmodel/octree; concatenated drillholes (v2); plain drillhole (v1); text/referenced data with value map, colour map, "
     "comments; geoimage); each case = one family + a chunk of its items; quick: a seed-dependent third of the items of each "
-    "kind, at least one per kind, thorough: every item; non-trivial = the deletion changed something observable or raised"
+    "kind, at least one per kind, and every attribute and entry of every property group (3+2+... groups per object), thorough: "
+    "every item; non-trivial = the deletion changed something observable or raised"
 )
 LEVEL_TEXT = (
     "Proved in Coq (closed, no axioms) for all laid-out entity trees (any depth and width, unique identifiers, groups/objects/data "
@@ -64,9 +65,11 @@ LEVEL_TEXT = (
     "the stricter 'left out' is refuted: a missing Name is defaulted); the intact file reads back as its content. The old rebuild "
     "(explicit false variant of the model function) is refuted with a vm_compute witness. The reader's guards are extracted by ast "
     "on every run (rows with file:line) and the 20 rows the model consumes are checked by vm_compute (C19_reader_guards/_table): "
-    "removing a try/except, a .get or an `in` test breaks them. Tie: every corpus file is checked to be a laid-out well-formed tree "
+    "removing a try/except, a .get or an `in` test breaks them; C19_swallowing_scopes fixes what sits inside each swallowing "
+    "try/except (6 scopes); C19_property_group_item_local: an item of one property group leaves the object's other property "
+    "groups and fields as they were (per-object read). Tie: every corpus file is checked to be a laid-out well-formed tree "
     "(scan_matchb, wfb, intact_ok) and every selected single deletion of the 6 modelled family files is replayed on geoh5py and "
-    "compared with the model inside Coq (error kind, lost set, altered set - exactly for the Root link -, fresh identifiers, "
+    "compared with the model inside Coq (error kind, lost set, altered set - exactly for the Root link -, fresh identifiers, property groups one by one, "
     "theorem instance); the concatenated (v2) drillhole family is oracle-only; the Version-dependent choice of concatenated "
     "classes is not modelled."
 )
@@ -122,7 +125,8 @@ def _select(items, case):
         occ = by_kind[kind]
         h = int(hashlib.sha256(f"{sel}|{kind}".encode()).hexdigest()[:8], 16)
         for j, i in enumerate(occ):
-            if rate == 1 or kinds is not None or j == h % len(occ) or (h + j * 2654435761) % rate == 0:
+            every = kind.startswith("attr|pg|") or kind.startswith("link|pgs|")  # each attribute at each position
+            if rate == 1 or every or kinds is not None or j == h % len(occ) or (h + j * 2654435761) % rate == 0:
                 chosen.append(i)
     chosen.sort()
     if case.get("chunk"):
@@ -259,6 +263,8 @@ def drive_one(case, work):
         ob["described"] = sorted(x for x in (o(u) for u in dset) if x is not None)
         ob["described_roots"] = sorted(x for x in (o(d.strip("{}")) for d in desc if d and d.strip("{}") in ref["entities"]) if x is not None)
         ob["is_root_item"] = bool(ref["root"] and ("{" + ref["root"] + "}") in [d for d in desc if d])
+        ob["pg_item"] = (it["h5path"].rsplit("/", 1)[-1] if it["role"] == "pg" else it["name"] if it["role"] == "pgs" else None)
+        ob["pg_owner"] = o(it["owner"].strip("{}")) if it["role"] in ("pg", "pgs") and it.get("owner") else None
         ob["empty_container"] = bool(it["t"] == "link" and it.get("target_role", "").startswith("children:")
                                      and not sc["nodes"][it["target"]]["links"])
         if w["open"] != "ok":
@@ -298,6 +304,24 @@ def drive_one(case, work):
                     kids_bad.append(o(u))
             if it["kind"] == "link|workspace|Root" and ref["root"] in w["entities"]:
                 ob["old_root_after"] = w["entities"][ref["root"]]["class"]  # the old root group, now a child of the rebuilt root
+            # property groups, one by one (of objects returned under the same identifier)
+            pg_missing, pg_altered, pg_error = [], [], []
+            for u, a in ref["entities"].items():
+                b = w["entities"].get(u)
+                pa = a.get("property_groups")
+                if b is None or not isinstance(pa, list) or not pa:
+                    continue
+                pb = b.get("property_groups")
+                if not isinstance(pb, list):
+                    pg_error.append(o(u))
+                    continue
+                after = {g["uid"]: g for g in pb}
+                for g in pa:
+                    if g["uid"] not in after:
+                        pg_missing.append([o(u), "{" + g["uid"] + "}"])
+                    elif after[g["uid"]] != g:
+                        pg_altered.append([o(u), "{" + g["uid"] + "}"])
+            ob["pg_missing"], ob["pg_altered"], ob["pg_error"] = sorted(pg_missing), sorted(pg_altered), sorted(pg_error)
             ob.update({"lost": [o(u) for u in lost], "new": len(new), "new_classes": sorted(w["entities"][u]["class"] for u in new),
                        "alt_own": sorted(alt_own), "alt_derived": sorted(alt_der), "detail": detail, "kids_bad": sorted(kids_bad),
                        "proj_changed": w["project"] != ref["project"],
@@ -386,9 +410,12 @@ def _obs_term(ob):
         return "check_obs %s s t0 %s (Some %s) [] [] 0 false" % (cnat(FUEL), citem(ob["mitem"]), e)
     if any(x is None for x in ob["lost"] + ob["alt_own"]):
         return "false"
-    return "check_obs %s s t0 %s None %s %s %s %s" % (
+    if ob.get("pg_error") or any(x[0] is None or not all(32 <= ord(c) < 127 for c in x[1]) for x in ob["pg_missing"] + ob["pg_altered"]):
+        return "false"
+    pgl = lambda l: clist("(%s, KN %s)" % (cN(x[0]), cstr(x[1])) for x in l)  # noqa: E731
+    return "check_obs %s s t0 %s None %s %s %s %s && check_pgs %s s t0 %s %s %s" % (
         cnat(FUEL), citem(ob["mitem"]), clist(cN(x) for x in ob["lost"]), clist(cN(x) for x in ob["alt_own"]), cnat(ob["new"]),
-        cbool(ob["proj_changed"]))
+        cbool(ob["proj_changed"]), cnat(FUEL), citem(ob["mitem"]), pgl(ob["pg_missing"]), pgl(ob["pg_altered"]))
 
 
 def case_term(case, obs):
@@ -488,6 +515,20 @@ def oracle(case, obs):
             fails.append({"key": f"unaffected-entity-{'lost' if lost_out else 'altered'}:{kind}",
                           "what": f"{where}: entities not described by the item are "
                                   + (f"missing: {names(lost_out)}; " if lost_out else "") + (f"changed: {what}" if what else "")})
+        # property groups one by one: a group that is not the one the item describes stays, unchanged
+        pgm = [x for x in ob.get("pg_missing", []) if not (x[0] in D and ob.get("pg_item") is None)]
+        pga = [x for x in ob.get("pg_altered", []) if not (x[0] in D and ob.get("pg_item") is None)]
+        if ob.get("pg_item") is not None:
+            pgm = [x for x in pgm if x[1] != ob["pg_item"]]
+            pga = [x for x in pga if x[1] != ob["pg_item"]]
+            own = [f for f in ob["detail"].get(str(ob.get("pg_owner")), []) if f not in ("property_groups", "children")]
+            if ob.get("pg_owner") in ob["alt_own"] and own:
+                fails.append({"key": f"unaffected-entity-altered:{kind}", "what": f"{where}: the object changed beyond the described property group: {own}"})
+        if pgm or pga or (ob.get("pg_error") and [x for x in ob["pg_error"] if x not in D or ob.get("pg_item") is not None]):
+            fails.append({"key": f"unaffected-property-group-{'lost' if pgm else 'altered'}:{kind}",
+                          "what": f"{where}: property groups the item does not describe are "
+                                  + (f"missing: {pgm[:4]} " if pgm else "") + (f"changed: {pga[:4]} " if pga else "")
+                                  + (f"unreadable on {names(ob['pg_error'])}" if ob.get("pg_error") else "")})
         if ob["proj_changed"] and not (ob["role"] == "workspace" and ob["t"] == "attr"):
             fails.append({"key": f"project-attributes-altered:{kind}", "what": f"{where}: project attributes changed"})
         if cls == "optional":
